@@ -11,7 +11,8 @@
     visible premises: [obj_codec_ok], [coll_codec_ok], [path_ok], [hdr_meta_ok],
     [hdr_loc_ok] say that the codecs round-trip the values of THIS input (the oracle
     evaluates the same predicates on every case with the real functions' graphs). *)
-From GW Require Import Base ObjXml Objects ObjRfc ObjCheck ObjectsProofs ObjectsE2E ObjectsReader ObjectsVariants.
+From GW Require Import Href.
+From GW Require Import Base ObjXml Objects ObjRfc ObjCheck ObjCodecs ObjectsProofs ObjectsE2E ObjectsReader ObjectsVariants ObjCodecsProofs.
 From Coq Require Import Permutation.
 
 Local Open Scope Z_scope.
@@ -166,3 +167,90 @@ Theorem C10_foreign_namesake_refuted :
      = RSync (COk ("t1"%string, [], ["/b"%string; "/a"%string])).
 Proof. exact foreign_namesake_refuted. Qed.
 Print Assumptions C10_foreign_namesake_refuted.
+
+(** ** The same on the codec models of property C16
+    [modelled_cd ip pe pd st] / [modelled_hd ip pe pd st] (ObjCodecs.v) fill the record of
+    external functions with C16's models of url.URL.String / url.Parse (Href.v),
+    %q / strconv.Unquote / ETag.UnmarshalText (Quote.v) and Format(http.TimeFormat) /
+    http.ParseTime (Civil.v).  The round-trip premises of the theorems above are discharged
+    from C16's theorems; what remains are the domains C16 states — [href_in_domain p]: an
+    absolute path whose first segment is not empty; [year_ok s]: the UTC year of the instant
+    is 0..9999 ([meta_dom o]: that, or the zero time); entity tags: any byte string, no
+    premise — and the parameters: [ip] strconv.IsPrint above U+00FF (any table), [pe]/[pd]
+    the go-ical / go-vcard encoder / decoder with their round trip [pay_rt] on the payloads
+    of the input, [st] http.StatusText (any function).
+    [obj_dom fl o] = href_in_domain (o_path o) && meta_dom o && pay_rt fl (o_data o)
+    && int64_ok (o_len o); [coll_dom c] = href_in_domain (c_path c) && int64_ok (c_max c). *)
+Theorem C10_query_modelled_codecs : forall ip pe pd st fl principal os,
+  forallb (obj_dom pe pd fl) os = true ->
+  e2e_query (modelled_cd ip pe pd st) fl principal os = COk (map report_view os).
+Proof. exact query_modelled. Qed.
+Print Assumptions C10_query_modelled_codecs.
+
+Theorem C10_multiget_client_modelled_codecs : forall ip pe pd st fl principal backend hrefs,
+  forallb (fun h => outcome_dom pe pd fl h (backend h)) hrefs = true ->
+  e2e_multiget (modelled_cd ip pe pd st) fl principal backend hrefs = spec_multiget_client backend hrefs.
+Proof. exact multiget_modelled. Qed.
+Print Assumptions C10_multiget_client_modelled_codecs.
+
+Theorem C10_find_modelled_codecs : forall ip pe pd st fl principal home cs,
+  forallb coll_dom cs = true -> href_in_domain home = true ->
+  e2e_find (modelled_cd ip pe pd st) fl principal home cs = COk (map (coll_spec_view fl) cs).
+Proof. exact find_modelled. Qed.
+Print Assumptions C10_find_modelled_codecs.
+
+Theorem C10_get_modelled_codecs : forall ip pe pd st fl reqpath o,
+  obj_dom pe pd fl o = true ->
+  e2e_get (modelled_cd ip pe pd st) (modelled_hd ip pe pd st) fl reqpath (Found o) = COk (get_view reqpath o).
+Proof. exact get_modelled. Qed.
+Print Assumptions C10_get_modelled_codecs.
+
+Theorem C10_put_modelled_codecs : forall ip pe pd st fl reqpath data o,
+  pay_rt pe pd fl data = true -> loc_dom o = true -> meta_dom o = true ->
+  e2e_put (modelled_cd ip pe pd st) (modelled_hd ip pe pd st) fl reqpath data (Found o)
+  = (COk (put_view reqpath o), Some data).
+Proof. exact put_modelled. Qed.
+Print Assumptions C10_put_modelled_codecs.
+
+Theorem C10_put_failure_modelled_codecs : forall ip pe pd st fl reqpath data c d p,
+  pay_rt pe pd fl data = true -> (Z.quot (fail_code c) 100 =? 2) = false ->
+  e2e_put (modelled_cd ip pe pd st) (modelled_hd ip pe pd st) fl reqpath data (Failed c d p)
+  = (CHttp (fail_code c), Some data).
+Proof. exact put_failure_modelled. Qed.
+Print Assumptions C10_put_failure_modelled_codecs.
+
+Theorem C10_sync_collection_modelled_codecs : forall ip pe pd st reqpath members token,
+  (forall m, In m members -> member_dom reqpath m) ->
+  sync_collection (modelled_cd ip pe pd st) reqpath (rfc_write (sync_doc (modelled_cd ip pe pd st) members token))
+  = COk (token, map sync_item_of members).
+Proof. exact sync_modelled. Qed.
+Print Assumptions C10_sync_collection_modelled_codecs.
+
+Theorem C10_independent_reader_query_modelled_codecs : forall ip pe pd st fl principal req os,
+  req <> [] -> (forall o, In o os -> href_in_domain (o_path o) = true) ->
+  exists T, rfc4918_read_multistatus (server_query (modelled_cd ip pe pd st) fl principal req os) = Some T
+            /\ chunks_ok (object_rows (modelled_cd ip pe pd st) fl principal req) os T.
+Proof. exact reader_query_modelled. Qed.
+Print Assumptions C10_independent_reader_query_modelled_codecs.
+
+Theorem C10_independent_reader_multiget_modelled_codecs : forall ip pe pd st fl principal req backend hrefs,
+  req <> [] -> (forall h, In h hrefs -> multiget_href_dom backend h) ->
+  exists T, rfc4918_read_multistatus (server_multiget (modelled_cd ip pe pd st) fl principal req backend hrefs) = Some T
+            /\ chunks_ok (multiget_rows (modelled_cd ip pe pd st) fl principal req backend) hrefs T.
+Proof. exact reader_multiget_modelled. Qed.
+Print Assumptions C10_independent_reader_multiget_modelled_codecs.
+
+Theorem C10_independent_reader_listing_modelled_codecs : forall ip pe pd st fl principal req c os,
+  req <> [] -> href_in_domain (c_path c) = true -> (forall o, In o os -> href_in_domain (o_path o) = true) ->
+  exists T0 T, rfc4918_read_multistatus (server_propfind_collection (modelled_cd ip pe pd st) fl principal req c os) = Some (T0 ++ T)
+               /\ collection_rows (modelled_cd ip pe pd st) fl principal req c T0
+               /\ chunks_ok (object_rows (modelled_cd ip pe pd st) fl principal req) os T.
+Proof. exact reader_listing_modelled. Qed.
+Print Assumptions C10_independent_reader_listing_modelled_codecs.
+
+Theorem C10_independent_reader_discovery_modelled_codecs : forall ip pe pd st fl principal home req cs,
+  req <> [] -> href_in_domain home = true -> (forall c, In c cs -> href_in_domain (c_path c) = true) ->
+  exists T0 T, rfc4918_read_multistatus (server_propfind_homeset (modelled_cd ip pe pd st) fl principal home req cs) = Some (T0 ++ T)
+               /\ chunks_ok (collection_rows (modelled_cd ip pe pd st) fl principal req) cs T.
+Proof. exact reader_discovery_modelled. Qed.
+Print Assumptions C10_independent_reader_discovery_modelled_codecs.
